@@ -8,7 +8,7 @@ HERE = os.path.dirname(os.path.dirname(os.path.abspath(__file__)))
 
 
 def _norm(name):
-    return re.sub(r'@L\d+', '', name)
+    return re.sub(r'#p\d+', '', re.sub(r'@L\d+', '', name))
 
 
 def load_baseline():
